@@ -91,7 +91,7 @@ fn contexts() -> Vec<&'static str> {
 }
 
 fn fixed_lines() -> Vec<&'static str> {
-    vec!["GOTO 100", "GOSUB 100", "GOTO 777", "GOSUB 777", "FOR I$ = 1 TO 2", "NEXT I$", "NEXT I", "READ X", "READ X$, X", "RETURN", "DIM C", "PRINT FNQ(1)", "X = FNA(1, 2)", "X = FNA()", "PRINT NOT NOT X", "PRINT - -3", "X = -+1", "PRINT NOT -1", "X = 2 * -+3", "PRINT X$ = X$ = \"A\"", "X = \"A\" = \"A\" = 1", "X = A(- -1)", "GOTO 100.5", "GOSUB 100.25", "IF 1 THEN 100.5", "IF 0 THEN 777 ELSE 100.75", "GOTO 100.0", "GOTO 99.9", "DIM P(5), Q(5)", "I$ = \"S\": FOR I$ = 1 TO 3", "Y = 1: READ Y$", "Y$ = \"\": READ Y"]
+    vec!["GOTO 100", "GOSUB 100", "GOTO 777", "GOSUB 777", "FOR I$ = 1 TO 2", "NEXT I$", "NEXT I", "READ X", "READ X$, X", "RETURN", "DIM C", "PRINT FNQ(1)", "X = FNA(1, 2)", "X = FNA()", "PRINT NOT NOT X", "PRINT - -3", "X = -+1", "PRINT NOT -1", "X = 2 * -+3", "PRINT X$ = X$ = \"A\"", "X = \"A\" = \"A\" = 1", "X = A(- -1)", "GOTO 100.5", "GOSUB 100.25", "IF 1 THEN 100.5", "IF 0 THEN 777 ELSE 100.75", "GOTO 100.0", "GOTO 99.9", "IF X GOTO 100", "IF X = 0 GOTO 100", "IF X GO TO 100", "DIM P(5), Q(5)", "I$ = \"S\": FOR I$ = 1 TO 3", "Y = 1: READ Y$", "Y$ = \"\": READ Y"]
 }
 
 fn leaves() -> Vec<Expr> {
